@@ -468,6 +468,8 @@ func checkC09(c *Ctx, r *Report) {
 	r.rule("C09.R4.stop-only-on-overflow", 1, "truncateLoop leaves its loop early only where the record just measured does not fit")
 	stopOnlyOnOverflow(c, r, "C09.R4.stop-only-on-overflow")
 	aplExtentShared(c, r, "C09.R3.apl-extent", "for every prefix whose masked address ends in zero octets (10.1.0.0/24, any IPv6 network) Len() counts 1..15 octets too many; Truncate, which budgets with it, drops records from a reply that fits and sets TC")
+	r.rule("C09.R3.len-search-walk", 1, "compressionLenSearch visits the labels through NextLabel (escaped dots do not start labels)")
+	walkThroughNextLabel(c, r, "C09.R3.len-search-walk", "compressionLenSearch", "Truncate's budget registers suffixes at escaped dots that the packer never compresses against: the truncated reply is larger than the size asked for")
 }
 
 // edgeDominatesAny: one of the If's edges edge-dominates target.
